@@ -20,7 +20,7 @@ def kw_for(ctx, hermitian, **over):
     return kw
 
 
-def run_common(ctx, vfile, rels, what):
+def run_common(ctx, vfile, rels, what, targeted=None):
     ctx.assumptions += [
         "exact arithmetic (floating-point rounding not modelled; float inputs are exactly representable by construction)",
         "Coq theorems are about the whole-series semantics DSL/Sem.v of the translated Hermitian program in the concrete algebra of multi-index series of matrices; the index-level evaluator is tied to the code by the harnesses of C09/C18, the front-end normalisation of parameters/keys by C14",
@@ -35,6 +35,8 @@ def run_common(ctx, vfile, rels, what):
     ctx.oracle("o_relations[nonhermitian]", R.sweep, rels, ctx.n(6, 30), kw_for(ctx, False), parallel=True)
     # inputs inside the class of the *_nh_partial theorems (kept elements connect equal unperturbed energies)
     ctx.oracle("o_relations[nonhermitian,kept-equal-energies]", R.sweep, rels, ctx.n(5, 30), kw_for(ctx, False, nh_class=True), parallel=True)
+    if targeted:
+        targeted(ctx)
     if not ctx.quick:
         # three parameters and total order 4 on the fast exact-float families (dense / sparse numpy branches)
         ctx.oracle("o_relations[hermitian,float,3 parameters]", R.sweep, rels, 40,
@@ -67,8 +69,16 @@ def replay_common(rp):
     return 1 if fails else 0
 
 
+def targeted(ctx):
+    # every relation with the Hamiltonian handed over as ONE SymPy matrix + symbols= (Taylor-expansion path of the
+    # front end), two symbols, mixed monomials x*y and x**2*y
+    for herm in (True, False):
+        ctx.oracle("o_relations[taylor path,mixed monomials,hermitian=%s]" % herm, R.sweep, RELS, ctx.n(2, 8),
+                   kw_for(ctx, herm, special="taylor", N=3), parallel=True)
+
+
 def run(ctx):
-    return run_common(ctx, VFILE, RELS, "the bookkeeping relations")
+    return run_common(ctx, VFILE, RELS, "the bookkeeping relations", targeted)
 
 
 def replay(rp):
